@@ -202,12 +202,12 @@ struct Client : simk::Actor {
 	bool want_recv(){ if(rhold_until > simk::now_us()) return false; return connected && !finished && (c->avail() > 0 || (c->eof() && !eof_seen)); }
 	bool enabled() override {
 		if(finished) return false;
-		if(!connected) return simk::now_us() >= t_created + start_delay_us && simk::is_listening(addr);
+		if(!connected) return simk::now_us() >= t_created + start_delay_us && simk::is_listening(addr) && simk::is_listening("tcp:8090");   // the back-end of the forwarding rule is up as well
 		if(deadline >= 0 && simk::now_us() >= deadline) return true;
 		if(!E().well_formed && E().wire.empty() && E().t_sent < 0) return true;
 		return want_send() || want_recv();
 	}
-	int64_t next_time() override { if(finished) return -1; if(!connected) return simk::is_listening(addr) ? t_created + start_delay_us : -1; if(hold_until > simk::now_us() && (deadline < 0 || hold_until < deadline)) return hold_until; if(rhold_until > simk::now_us() && (deadline < 0 || rhold_until < deadline)) return rhold_until; return deadline; }
+	int64_t next_time() override { if(finished) return -1; if(!connected) return simk::is_listening(addr) && simk::is_listening("tcp:8090") ? t_created + start_delay_us : -1; if(hold_until > simk::now_us() && (deadline < 0 || hold_until < deadline)) return hold_until; if(rhold_until > simk::now_us() && (deadline < 0 || rhold_until < deadline)) return rhold_until; return deadline; }
 	void finish_all(bool early){ for(size_t i=cur;i<ex.size();i++) if(!ex[i].done){ ex[i].done = true; ex[i].conn_closed_early = early; ex[i].t_done = simk::now_us(); } finished = true; if(c) c->close(); }
 	void start_exchange(){ sent = 0; segi = 0; deadline = simk::now_us() + timeout_us; E().t_start = simk::now_us(); if(E().pre_sent){ sent = E().wire.size(); E().t_sent = simk::now_us(); } }
 	void complete_current(){ Exchange &e = E(); e.done = true; e.t_done = simk::now_us(); cur++; if(cur >= ex.size()){ finished = true; c->close(); } else { start_exchange(); if(!in.empty()) try_parse(); } }   // a pipelined response may be here already
@@ -296,6 +296,7 @@ struct E1 : Engine {
 		int n = 1 + r.below(3); for(int i=0;i<n;i++) a.push((int)(1 + r.below(len + 1))); return a; }
 	static std::string rnd_token(simk::Rng &r,int minl,int maxl){ static const char al[] = "abcdefghijklmnopqrstuvwxyzABCDEFGHIJKLMNOPQRSTUVWXYZ0123456789-_.~"; int n = minl + r.below(maxl-minl+1); std::string s; for(int i=0;i<n;i++) s += al[r.below(sizeof(al)-1)]; return s; }
 	static std::string rnd_urlenc(simk::Rng &r,int maxl){ std::string s; int n = r.below(maxl+1); for(int i=0;i<n;i++){ unsigned x = r.below(10); if(x < 6) s += "abcXYZ019-_.~"[r.below(13)]; else if(x < 8){ char b[8]; snprintf(b,sizeof(b),"%%%02X",(unsigned)(1 + r.below(254))); for(int j=1;j<3;j++) if(r.below(2)) b[j] = (char)tolower((unsigned char)b[j]);   /* hex digits in either case, independently */ s += b; } else if(x == 8) s += '+'; else s += r.below(2) ? "%2F" : "%2f"; } return s; }
+	static bool &gen_fwd(){ static bool v = false; return v; }   // the plan being generated forwards the last request of its (only) connection
 	static size_t &gen_limit(){ static size_t v = 0; return v; }
 	static size_t &gen_budget(){ static size_t v = 1u<<30; return v; }   // largest request body affordable with this run's buffer / channel sizes   // content limit (bytes) of the run being generated, 0 = default
 	static J gen_req(simk::Rng &r,const std::string &prop,bool thorough,bool async_mount,int idx){
@@ -306,6 +307,7 @@ struct E1 : Engine {
 		std::string path = filt && r.below(2) ? "/echomp" : "/echo"; if(path == "/echomp" && r.below(2)) path += (char)('1' + r.below(3));   /* the digit selects what the multipart filter does with the parts (reads them / sniffs them) */ int ns = r.below(4); for(int i=0;i<ns;i++){ path += "/"; unsigned x = r.below(8); if(x == 0) path += ""; else if(x == 1) path += r.below(2) ? "%41b%2Fc" : "%4ab%2fc%e2%82%Ac"; else if(x == 2) path += r.below(3) ? "a%20b" : "a%20sb%25n%25s%20s";   /* what a printf-style formatter must never see as its format */ else if(x == 3) path += r.below(3) ? "." : "u{8BIT}"; else path += rnd_token(r,1,8); }
 		q["path"] = path; if(filt && r.below(3) == 0) q["xlimit_mode"] = 1 + (int)r.below(4);   /* the filter application sets the limits of this very request: half the body, one byte less, exactly, more than enough */
 		if(r.below(3) == 0){ static const char *hosts[] = {"internal.example","internal.example","internal.example:8080","xinternal.example","internal.example.evil","internal.example:80x","other.example:8080"}; q["host"] = hosts[r.below(7)]; }   // an application is mounted for the host internal.example(:port) only: every request of a kept-alive connection is dispatched by its own Host
+		if(!filt && gen_fwd()) q["host"] = "fwd.example";   /* forwarding.rules: requests for this host are relayed to a second service (SCGI back-end) whatever front-end they arrived on */
 		if(r.below(4) == 0) q["host_last"] = 1;
 		if(r.below(3)){ std::string qs; int n = r.below(5); for(int i=0;i<n;i++){ if(i) qs += "&"; qs += rnd_token(r,1,5) + (r.below(8) ? "=" : "") ; qs += rnd_urlenc(r,10); if(r.below(12)==0) qs += "&" ; } q["query"] = qs; q["has_query"] = true; }
 		J hs = J::arr(); int nh = r.below(7); if(r.below(6) == 0) nh = 20 + r.below(120);   // many headers: the environment table grows through several sizes
@@ -342,7 +344,7 @@ struct E1 : Engine {
 	}
 	static Req req_from(const J &q){
 		Req r; r.method = q.gets("method","GET"); if(r.method.empty()) r.method = "GET"; r.script = q.gets("script","/s"); if(r.script != "/a" && r.script != "/f") r.script = "/s"; r.path = q.gets("path","/echo"); if(r.path.empty() || r.path[0] != '/') r.path = "/" + r.path;
-		{ std::string h = q.gets("host"); static const char *known[] = {"sim.example","internal.example","internal.example:8080","xinternal.example","internal.example.evil","internal.example:80x","other.example:8080"}; r.host = "sim.example"; for(auto k:known) if(h == k) r.host = h; r.host_last = q.geti("host_last") != 0; }
+		{ std::string h = q.gets("host"); static const char *known[] = {"sim.example","internal.example","internal.example:8080","xinternal.example","internal.example.evil","internal.example:80x","other.example:8080","fwd.example"}; r.host = "sim.example"; for(auto k:known) if(h == k) r.host = h; r.host_last = q.geti("host_last") != 0; }
 		r.has_query = q.geti("has_query"); r.query = q.gets("query");
 		// "{8BIT}" in a header value, the path or the query stands for bytes above 0x7f (UTF-8 and ISO-8859-1 text, 0x80, 0xff): legal in field values (obs-text) and seen in request targets
 		auto hi = [](std::string v){ for(size_t p = v.find("{8BIT}");p != std::string::npos;p = v.find("{8BIT}",p)) v.replace(p,6,"caf\xc3\xa9\xe9\x80\xff\xfe"); return v; };
@@ -392,14 +394,16 @@ struct E1 : Engine {
 		// a slow reader is alone in its plan: wherever a write blocks (a synchronous application on a worker thread, an asynchronous one that chose a blocking io mode) it
 		// legitimately starves the other connections, which is not what is being checked
 		bool slow_reader_plan = (prop == "C03" || prop == "C01") && r.below(12) == 0; if(slow_reader_plan) nconn = 1;
+		// a forwarding plan: one connection whose last request is relayed to the second service (SCGI back-end); well-formed requests only, the relay has no time-outs of its own
+		bool fwd_plan = !slow_reader_plan && prop == "C01" && r.below(8) == 0; gen_fwd() = fwd_plan; if(fwd_plan){ nconn = 1; p["fwd_plan"] = 1; p["accept_fail_at"] = J::arr(); }
 		J conns = J::arr(); int tagn = 0;
 		for(int ci=0;ci<nconn;ci++){
 			J c = J::obj(); int proto = (int)r.below(3); bool async_mount = r.below(2); if(slow_reader_plan){ proto = 0; async_mount = true; } c["proto"] = proto; c["async"] = async_mount;
 			c["cap_to_server"] = (int)(r.below(3) == 0 ? 1 + r.below(64) : 256 + r.below(65536)); c["cap_to_client"] = (int)(r.below(3) == 0 ? 1 + r.below(64) : 256 + r.below(262144));
 			J rp = J::arr(); int nrp = r.below(4); for(int i=0;i<nrp;i++) rp.push((int)(1 + r.below(r.below(2) ? 16 : 5000))); c["read_pace"] = rp; c["start_delay_us"] = (int)r.below(2000);
 			if(slow_reader_plan){ J rp2 = J::arr();   /* asynchronous mounts only: behind a synchronous application a slow reader legitimately ties up a worker thread and starves the other connections */ rp2.push((int)(500 + r.below(3000))); c["read_pace"] = rp2; c["read_delay_ms"] = (int)(cfg.geti("http_timeout",10) * (100 + (int)r.below(300))); c["cap_to_client"] = 2048 + (int)r.below(4096); }   // slow reader: small reads with a pause of 0.1..0.4 x http.timeout after each
-			bool bad_conn = (prop == "C02" && (ci == 0 || r.below(2))) || (prop == "C12" && r.below(4) == 0);   // C12: the last request of a quarter of the connections carries a malformed / mis-sized upload
-			bool http11 = r.below(2); c["http11"] = http11; c["pipeline"] = (int)(r.below(3) == 0); int nreq = proto == 1 ? 1 : 1 + r.below(bad_conn ? 2 : 4); bool ka = nreq > 1 || r.below(3) == 0; c["keepalive"] = ka;
+			bool bad_conn = !fwd_plan && ((prop == "C02" && (ci == 0 || r.below(2))) || (prop == "C12" && r.below(4) == 0));   // C12: the last request of a quarter of the connections carries a malformed / mis-sized upload
+			bool http11 = r.below(2); c["http11"] = http11; c["pipeline"] = (int)(!fwd_plan && r.below(3) == 0); int nreq = proto == 1 ? 1 : 1 + r.below(bad_conn ? 2 : 4); bool ka = nreq > 1 || r.below(3) == 0; c["keepalive"] = ka;
 			{ int narrow = std::min((int)cfg.geti("input_buffer_size"),(int)c.geti("cap_to_server")); gen_budget() = narrow <= 8 ? 2500 : narrow <= 64 ? 16000 : 1u<<30; }
 			J exs = J::arr();
 			for(int i=0;i<nreq;i++){ J e = J::obj(); { char tb[40]; snprintf(tb,sizeof(tb),"q%dz%06llx",tagn,(unsigned long long)(wire::fnv("tag" + std::to_string(tagn)) & 0xffffff)); tagn++; e["tag"] = tb; }   // self-checking: a mutated tag cannot turn into another request's tag
@@ -417,7 +421,7 @@ struct E1 : Engine {
 						int ob = (int)cfg.geti("output_buffer_size"), ab = (int)cfg.geti("async_output_buffer_size"), cc = (int)c.geti("cap_to_client"); int narrow = std::min(std::min(ob,ab),cc); size_t cap_total = narrow <= 8 ? 3000 : narrow <= 64 ? 20000 : 400000;
 						if(total > cap_total){ std::string sc2; size_t run = 0; size_t p0 = 0; while(p0 < sc.size()){ size_t q0 = sc.find('.',p0); if(q0 == std::string::npos) q0 = sc.size(); std::string t = sc.substr(p0,q0-p0); p0 = q0 + 1; if(!t.empty() && t[0] == 'w'){ size_t n0 = strtoul(t.c_str()+1,nullptr,10); if(run + n0 > cap_total) n0 = run < cap_total ? std::min<size_t>(cap_total-run,n0) % 97 : 3; run += n0; t = "w" + std::to_string(n0); } sc2 += t + "."; } sc = sc2; } }
 					e["kind"] = "writer"; e["script"] = sc; e["salt"] = (long long)r.below(100000); e["gzip"] = (int)(r.below(3) == 0); if(rawmode) e["gzip"] = 0; if(r.below(10) == 0) e["abort_after"] = (int)r.below(3000); if(!rawmode && r.below(8) == 0){ e["cache"] = "pg" + std::to_string(r.below(2)); std::string sc3; size_t p0 = 0; while(p0 < sc.size()){ size_t q0 = sc.find('.',p0); if(q0 == std::string::npos) q0 = sc.size(); std::string t = sc.substr(p0,q0-p0); p0 = q0 + 1; if(!t.empty() && t[0] != 't' && t[0] != 'm') sc3 += t + "."; } e["script"] = sc3; }
-				} else { e["kind"] = "echo"; e["req"] = gen_req(r,prop,thorough,async_mount,i); }
+				} else { e["kind"] = "echo"; e["req"] = gen_req(r,prop,thorough,async_mount,i); if(i != nreq-1 && e.get("req").gets("host") == "fwd.example") e["req"]["host"] = "sim.example"; }   /* the relay closes the front connection when it is done: a forwarded request is the last one of its connection */
 				J fl = J::obj(); J pc = J::arr(); int npc = r.below(5); for(int k=0;k<npc;k++) pc.push((int)(1 + r.below(r.below(2) ? 8 : 400))); fl["params_chunks"] = pc; J sc2 = J::arr(); int nsc = r.below(5); for(int k=0;k<nsc;k++) sc2.push((int)(1 + r.below(r.below(2) ? 16 : 70000))); fl["stdin_chunks"] = sc2;
 				J pd = J::arr(); int npd = r.below(6); for(int k=0;k<npd;k++) pd.push((int)r.below(r.below(2) ? 8 : 256)); fl["paddings"] = pd; fl["request_id"] = 1 + (int)r.below(r.below(2) ? 3 : 65535); e["fcgi"] = fl;
 				e["seg"] = gen_segs(r,600);
@@ -598,8 +602,14 @@ struct E1 : Engine {
 			{ char pb[16]; snprintf(pb,sizeof(pb),"%07d",(int)getpid()); upload_dir = runner::g_scratch + "/up" + pb; }   /* fixed length, see runner.h */ mkdir(upload_dir.c_str(),0700);
 			v["security"]["uploads_path"] = upload_dir; aw.save_dir = upload_dir + ".saved"; mkdir(aw.save_dir.c_str(),0700);
 			v["security"]["content_length_limit"] = (int)std::max<int64_t>(1,std::min<int64_t>(cfg.geti("content_limit_kb",2048),4096)); v["security"]["multipart_form_data_limit"] = (int)std::max<int64_t>(1,std::min<int64_t>(cfg.geti("multipart_limit_kb",2048),4096)); v["security"]["file_in_memory_limit"] = (int)std::max<int64_t>(0,std::min<int64_t>(cfg.geti("file_in_memory_limit",128*1024),1<<22));
-			std::unique_ptr<cppcms::service> srv;
+			v["forwarding"]["rules"][0]["host"] = "fwd\\.example"; v["forwarding"]["rules"][0]["ip"] = "127.0.0.1"; v["forwarding"]["rules"][0]["port"] = 8090;
+			// the back-end of the forwarding rule: a second service in this process, SCGI only, same applications, no rules of its own
+			cppcms::json::value v2 = v; { cppcms::json::value none; v2["forwarding"] = none; v2["service"]["list"] = none; v2["service"]["api"] = "scgi"; v2["service"]["ip"] = "127.0.0.1"; v2["service"]["port"] = 8090; v2["service"]["worker_threads"] = 1; }
+			std::unique_ptr<cppcms::service> srv, srv2;
 			try {
+				srv2.reset(new cppcms::service(v2));
+				srv2->applications_pool().mount(cppcms::create_pool<TestApp>(),cppcms::mount_point("/s"),cppcms::app::synchronous);
+				srv2->applications_pool().mount(cppcms::create_pool<TestApp>(),cppcms::mount_point("/a"),cppcms::app::asynchronous);
 				srv.reset(new cppcms::service(v));
 				srv->applications_pool().mount(cppcms::create_pool<HostApp>(),cppcms::mount_point(cppcms::mount_point::match_path_info,booster::regex("internal\\.example(:\\d+)?"),booster::regex("/s"),booster::regex(),0),cppcms::app::synchronous);
 				srv->applications_pool().mount(cppcms::create_pool<TestApp>(),cppcms::mount_point("/s"),cppcms::app::synchronous);
@@ -628,13 +638,16 @@ struct E1 : Engine {
 				std::thread stopper([sv,cls,settle_us,leakp,lrp]{ simk::block([lrp]{ return *lrp; },-1,"wait-loop"); simk::block([cls]{ for(auto &c:*cls) if(!c->finished) return false; return true; },-1,"wait-clients");
 					// every peer is gone: all server side connections must be released once the longest time-out has passed
 					simk::block([]{ return simk::open_accepted_fds() == 0; },simk::now_us() + settle_us,"settle"); *leakp = simk::open_accepted_fds(); sv->shutdown(); });
+				std::string run2_exception; bool loop2_running = false; bool *lr2 = &loop2_running; cppcms::service *sv2 = srv2.get(); sv2->post([lr2]{ *lr2 = true; });
+				std::thread backend([sv2,&run2_exception]{ try { sv2->run(); } catch(std::exception const &e){ run2_exception = std::string("exception left the back-end's service::run(): ") + e.what(); } catch(...){ run2_exception = "unknown exception left the back-end's service::run()"; } });
 				try { srv->run(); } catch(std::exception const &e){ run_exception = std::string("exception left service::run(): ") + e.what(); } catch(...){ run_exception = "unknown exception left service::run()"; }
+				simk::block([lr2,&run2_exception]{ return *lr2 || !run2_exception.empty(); },-1,"wait-backend-loop"); if(run2_exception.empty()) sv2->shutdown(); backend.join(); if(run_exception.empty()) run_exception = run2_exception;
 				if(!run_exception.empty()){ // the stopper may still wait for clients that nobody serves any more
 					for(auto &c:clients) c->finished = true; }
 				stopper.join();
 			}
 			simk::clear_actors();
-			try { srv.reset(); } catch(std::exception const &e){ res.fail("exception-in-destructor",e.what()); }
+			try { srv.reset(); srv2.reset(); } catch(std::exception const &e){ res.fail("exception-in-destructor",e.what()); }
 		}
 		if(!run_exception.empty()) res.fail("exception-escaped",run_exception);
 		res.hash = simk::trace_hash();
@@ -644,7 +657,7 @@ struct E1 : Engine {
 		AW = nullptr;
 		// ------------------------------------------------------------ oracles
 		std::map<std::string,std::string> cache_pages;
-		int n_raw = 0, n_aborted = 0; int n_disk_refused = 0; int n_on_error = 0; int n_filtered = 0, n_filter_reads = 0, n_host_app = 0, n_xlimit = 0; int n_over_limit = 0; int n_gzip_empty = 0; int n_bad = 0, n_bad_refused = 0; int n_cache_hits = 0; int n_ex = 0, n_multi_seg = 0, n_body = 0, n_keepalive_followups = 0, n_writer = 0, n_gzip = 0, n_chunked = 0;
+		int n_raw = 0, n_aborted = 0; int n_disk_refused = 0; int n_on_error = 0; int n_filtered = 0, n_filter_reads = 0, n_host_app = 0, n_xlimit = 0, n_forwarded = 0; int n_over_limit = 0; int n_gzip_empty = 0; int n_bad = 0, n_bad_refused = 0; int n_cache_hits = 0; int n_ex = 0, n_multi_seg = 0, n_body = 0, n_keepalive_followups = 0, n_writer = 0, n_gzip = 0, n_chunked = 0;
 		for(auto &cl:clients){ int port = 8080; bool conn_had_error = false; bool aborted_conn = false;
 			for(size_t i=0;i<cl->ex.size() && res.ok;i++){ Exchange &e = cl->ex[i]; n_ex++; if(e.seg.size() > 1) n_multi_seg++; if(e.req.has_body && !e.req.body.empty()) n_body++; if(i > 0 && !e.conn_closed_early) n_keepalive_followups++;
 				std::string who = std::string(cl->proto == 0 ? "http" : cl->proto == 1 ? "scgi" : "fastcgi") + " " + e.req.script + " request " + e.tag;
@@ -692,6 +705,8 @@ struct E1 : Engine {
 				if(e.resp.chunked) n_chunked++;
 				if(!e.is_writer){
 					Expect x = expect(e.req,cl->proto,e.http11,cl->proto == 0 && e.keepalive,port);
+					// forwarded (forwarding.rules): the back-end receives the environment of the front connection as it is, plus CONTENT_LENGTH=0 when there was none
+					if(e.req.host == "fwd.example"){ if(!x.env.count("CONTENT_LENGTH")) x.env["CONTENT_LENGTH"] = "0"; n_forwarded++; }
 					std::string want;
 					if(e.req.script == "/f" && e.req.has_body && !e.req.body.empty()){ n_filtered++;
 						bool mp = e.req.path.compare(0,7,"/echomp") == 0 && !e.req.boundary.empty();
@@ -734,7 +749,7 @@ struct E1 : Engine {
 		if(res.ok) for(auto &kv:aw.on_error){ if(kv.second > 1) res.fail("upload-error-notified-twice","request " + kv.first + ": content filter on_error() called " + std::to_string(kv.second) + " times"); else if(aw.completed.count(kv.first)) res.fail("error-and-completion","request " + kv.first + ": on_error() was called and the handler completed as well"); n_on_error += kv.second; }
 		if(res.ok && leaked) res.fail("descriptor-leak",std::to_string(leaked) + " simulated descriptors still open after the service was destroyed");
 		if(res.ok && !aw.exception.empty()) res.fail("exception-escaped",aw.exception);
-		res.counters["raw_mode_responses"] = n_raw; res.counters["client_aborts_mid_response"] = n_aborted; res.counters["filter_on_error_calls"] = n_on_error; res.counters["content_filter_requests"] = n_filtered; res.counters["filter_reads_parts"] = n_filter_reads; res.counters["requests_with_own_limits"] = n_xlimit; res.counters["host_mounted_app_requests"] = n_host_app; res.counters["accept_emfile"] = (long long)simk::stats().accept_emfile; res.counters["filters_installed"] = aw.filters_installed; res.counters["over_limit_413"] = n_over_limit; res.counters["gzip_announced_empty_body"] = n_gzip_empty; res.counters["malformed_exchanges"] = n_bad; res.counters["malformed_refused_as_required"] = n_bad_refused; res.counters["page_cache_hits"] = n_cache_hits; res.counters["exchanges"] = n_ex; res.counters["multi_segment_requests"] = n_multi_seg; res.counters["requests_with_body"] = n_body; res.counters["keepalive_followups"] = n_keepalive_followups; res.counters["writer_responses"] = n_writer; res.counters["gzip_responses"] = n_gzip; res.counters["chunked_responses"] = n_chunked;
+		res.counters["raw_mode_responses"] = n_raw; res.counters["client_aborts_mid_response"] = n_aborted; res.counters["filter_on_error_calls"] = n_on_error; res.counters["content_filter_requests"] = n_filtered; res.counters["filter_reads_parts"] = n_filter_reads; res.counters["requests_with_own_limits"] = n_xlimit; res.counters["forwarded_requests"] = n_forwarded; res.counters["host_mounted_app_requests"] = n_host_app; res.counters["accept_emfile"] = (long long)simk::stats().accept_emfile; res.counters["filters_installed"] = aw.filters_installed; res.counters["over_limit_413"] = n_over_limit; res.counters["gzip_announced_empty_body"] = n_gzip_empty; res.counters["malformed_exchanges"] = n_bad; res.counters["malformed_refused_as_required"] = n_bad_refused; res.counters["page_cache_hits"] = n_cache_hits; res.counters["exchanges"] = n_ex; res.counters["multi_segment_requests"] = n_multi_seg; res.counters["requests_with_body"] = n_body; res.counters["keepalive_followups"] = n_keepalive_followups; res.counters["writer_responses"] = n_writer; res.counters["gzip_responses"] = n_gzip; res.counters["chunked_responses"] = n_chunked;
 		{ long long np = 0, nr = 0; for(auto &cl:clients){ np += cl->n_pauses; nr += cl->n_read_pauses; } res.counters["slow_peer_pauses"] = np; res.counters["slow_reader_pauses"] = nr; }
 		res.counters["pipelined_requests"] = n_pipelined;
 		res.counters["disk_faults_injected"] = (long long)st.stdio_fail; res.counters["upload_spill_stdio_calls"] = (long long)st.stdio_ops; res.counters["uploads_refused_after_disk_fault"] = n_disk_refused;
